@@ -69,6 +69,7 @@ theorem parseV_toks : ∀ v : J, ∀ f rest, (toks v).length < f →
   intro v
   induction v using J.ind with
   | hs s => intro f rest hf; obtain ⟨f, rfl⟩ : ∃ g, f = g + 1 := ⟨f - 1, by omega⟩; simp [toks, parseV]
+  | hi n => intro f rest hf; obtain ⟨f, rfl⟩ : ∃ g, f = g + 1 := ⟨f - 1, by omega⟩; simp [toks, parseV]
   | hn t => intro f rest hf; obtain ⟨f, rfl⟩ : ∃ g, f = g + 1 := ⟨f - 1, by omega⟩; simp [toks, parseV]
   | hk k => intro f rest hf; obtain ⟨f, rfl⟩ : ∃ g, f = g + 1 := ⟨f - 1, by omega⟩; simp [toks, parseV]
   | hl xs ih =>
@@ -129,6 +130,7 @@ theorem endsSome_multiLine (L : Limits) (o cl : Char) (off : Nat)
 theorem gen_last (c : Consts) (L : Limits) (v : J) (off : Nat) : EndsSome (gen c L v off) := by
   cases v with
   | str s => exact endsSome_snoc [] _
+  | int n => exact endsSome_snoc [] _
   | num t => exact endsSome_snoc [] _
   | kw k => exact endsSome_snoc [] _
   | list xs =>
@@ -162,7 +164,36 @@ theorem joinLines_groupLines_gen (c : Consts) (L : Limits) (v : J) (off : Nat) :
     joinLines (groupLines (gen c L v off)) = text (gen c L v off) := by
   obtain ⟨pre, ch, e⟩ := gen_last c L v off
   rw [e, groupLines, joinLines_groupLinesGo]
-  simp
+  simp [lineText]
+
+/-! ### the domain test -/
+
+theorem wfBList_iff (xs : List J) : wfBList xs = true ↔ ∀ x, x ∈ xs → wfB x = true := by
+  induction xs with
+  | nil => simp [wfBList]
+  | cons x xs ih => simp [wfBList, ih]
+
+theorem wfBEntries_iff (kvs : List (List Char × J)) :
+    wfBEntries kvs = true ↔ ∀ kv, kv ∈ kvs → kv.1.all strOk = true ∧ wfB kv.2 = true := by
+  induction kvs with
+  | nil => simp [wfBEntries]
+  | cons kv r ih =>
+    obtain ⟨k, v⟩ := kv
+    simp only [wfBEntries, Bool.and_eq_true, ih, List.mem_cons, forall_eq_or_imp]
+
+theorem wfB_iff (v : J) : wfB v = true ↔ WF v := by
+  induction v using J.ind with
+  | hs s => simp [wfB, WF]
+  | hi n => simp [wfB, WF]
+  | hn t => simp [wfB, WF]
+  | hk k => simp [wfB, WF]
+  | hl xs ih =>
+    simp only [wfB, WF, wfBList_iff, WFList_iff]
+    exact ⟨fun h x hx => (ih x hx).mp (h x hx), fun h x hx => (ih x hx).mpr (h x hx)⟩
+  | hd kvs ih =>
+    simp only [wfB, WF, wfBEntries_iff, WFEntries_iff]
+    exact ⟨fun h x hx => ⟨(h x hx).1, (ih x hx).mp (h x hx).2⟩,
+      fun h x hx => ⟨(h x hx).1, (ih x hx).mpr (h x hx).2⟩⟩
 
 /-! ### `norm` -/
 
@@ -182,6 +213,7 @@ theorem eqvL_of_forall (xs : List J) (h : ∀ x, x ∈ xs → Eqv x (norm x)) : 
 theorem norm_eqv (v : J) : Eqv v (norm v) := by
   induction v using J.ind with
   | hs s => exact .str s
+  | hi n => exact .int n
   | hn t => exact .num t
   | hk k => exact .kw k
   | hl xs ih => exact .list (eqvL_of_forall xs ih)
@@ -212,6 +244,7 @@ theorem KeysSortedD_iff (kvs : List (List Char × J)) :
 theorem norm_keysSorted (v : J) : DistinctKeys v → KeysSorted (norm v) := by
   induction v using J.ind with
   | hs s => intro _; simp [norm, KeysSorted]
+  | hi n => intro _; simp [norm, KeysSorted]
   | hn t => intro _; simp [norm, KeysSorted]
   | hk k => intro _; simp [norm, KeysSorted]
   | hl xs ih =>
